@@ -264,7 +264,14 @@ fn e2_body(c: &Case) -> Result<(), String> {
                 }
                 servers.push((s, name));
             }
+            let total = servers.len();
             for (i, (s, name)) in servers.into_iter().enumerate() {
+                // every server that is gone must have taken its rendezvous entry with it, whatever
+                // else is still alive
+                let entries = interpose::harness(|| listing(&root)).len();
+                if entries > total - i {
+                    return Err(format!("[left-behind] {} of {} servers are gone but {} filesystem entries remain", i, total, entries));
+                }
                 if *accept_every > 0 && i % accept_every == 0 {
                     let tx = IpcSender::<Msg>::connect(name).map_err(|e| format!("connect: {}", e))?;
                     let mut keep = Vec::new();
